@@ -61,7 +61,7 @@ Proof. exact kernel_is_dot. Qed.
 (** hand-modelled source regions (interpolation.rs is also compared bit for bit through FN nearest) *)
 Theorem C01_source_regions :
   src_hash_interpolation_rs = "4d7e253a90c7263f50b19e37a69a79fe"%string /\
-  src_hash_sinc_rs = "18e3e78bb9f80e27247b3dbbc99c08a0"%string /\
+  src_hash_sinc_rs = "836f229828bb0600c659cb0ef072f0bb"%string /\
   src_hash_windows_rs = "e55e5fc09b4710ef3e62fea2b571dedf"%string /\
   src_hash_fft_core = "b42bed0dd611432617a6cd35a406882c"%string.
 Proof. repeat split; reflexivity. Qed.
